@@ -12,6 +12,8 @@ Template directives (each on its own line, everything else is copied through):
   //@loop <ordinal>
       <invariant / decreases text, spliced between loop header and `{`>
   //@hint before|after /<regex over one source line of the body>/
+  //@hint before-each /<regex>/        (the text is inserted before EVERY matching line, at least one: used for the property
+                                     assertions, anchored on the tail `Ok(..)` and on explicit `return Ok(..)` statements)
   //@hint start                      (ghost text at the very start of the body: entry-state snapshots, independent of statement order)
       <ghost text: assert / proof { } / let ghost>
   //@subst <key>                                  one of ALLOWED_SUBST, applied to the fn text
@@ -343,6 +345,15 @@ def extract_fn(relpath, impl_header, name, opts, spec_text, loops, hints, substs
             if re.search(rx, line):
                 hitn.append((pos, pos + len(line)))
             pos += len(line) + 1
+        if where == "before-each":
+            # the property assertions of a unit, repeated before EVERY success exit the regex describes (the tail expression and
+            # any explicit `return Ok(..)`): an early return added by a change is then checked against the same assertions
+            if not hitn:
+                raise AnchorError(f"{name}: hint anchor /{rx}/ matched 0 lines")
+            for la, lb in hitn:
+                inserts.append((la, text.rstrip() + "\n"))
+            rw.add("ghost-inserted", "contract / loop invariant / ghost hint text spliced in (no executable tokens)")
+            continue
         if occ is None and len(hitn) != 1:
             raise AnchorError(f"{name}: hint anchor /{rx}/ matched {len(hitn)} lines")
         if occ is not None and occ >= len(hitn):
@@ -566,7 +577,7 @@ def expand(template_path):
                     if t == "//@hint start":      # ghost declarations at the very start of the body (entry-state snapshots)
                         hints.append(["start", "", buf])
                     else:
-                        m = re.match(r"//@hint (before|after) /(.*)/(?:#(\d+))?\s*$", t)
+                        m = re.match(r"//@hint (before-each|before|after) /(.*)/(?:#(\d+))?\s*$", t)
                         if not m:
                             raise AnchorError(f"bad hint directive: {t}")
                         hints.append([m.group(1), m.group(2) + ("\x00" + m.group(3) if m.group(3) else ""), buf])
